@@ -353,6 +353,17 @@ impl<'tcx> Cx<'tcx> {
                             }
                             adt_path = s(self.path(adt.did()));
                         }
+                        ty::Tuple(_) => {
+                            name = s(format!("{}", f.as_usize()));
+                        }
+                        ty::Closure(def, _) | ty::CoroutineClosure(def, _) | ty::Coroutine(def, _) => {
+                            let names = tcx.closure_saved_names_of_captured_variables(*def);
+                            if f.as_usize() < names.len() {
+                                name = s(names[f].to_string());
+                            } else {
+                                name = s(format!("{}", f.as_usize()));
+                            }
+                        }
                         _ => {}
                     }
                     let _ = fty;
@@ -437,6 +448,19 @@ impl<'tcx> Cx<'tcx> {
                         tag = "str";
                         val = s(String::from_utf8_lossy(bytes).into_owned());
                     }
+                }
+            }
+        }
+        if tag == "opaque" && (ty.is_ref() || ty.is_raw_ptr()) {
+            // references to statics: name the static
+            if let Ok(rustc_middle::mir::ConstValue::Scalar(rustc_middle::mir::interpret::Scalar::Ptr(ptr, _))) =
+                c.eval(tcx, env, rustc_span::DUMMY_SP)
+            {
+                let (prov, _off) = ptr.into_raw_parts();
+                if let Some(rustc_middle::mir::interpret::GlobalAlloc::Static(def)) =
+                    tcx.try_get_global_alloc(prov.alloc_id())
+                {
+                    return J::A(vec![s("k"), s("static"), s(self.path(def)), s(format!("{}", ty))]);
                 }
             }
         }
